@@ -64,3 +64,33 @@ else:
     s = s.rstrip() + "\n\n" + a + "\n" + text + "\n" + b + "\n"
 open(p, "w").write(s)
 print("section 8 written:", tot, "seeds,", len(missed_first), "missed at first")
+
+# ---- per-property "later rounds" blocks (section 3): what rounds f.. added to each check, from the seeds' meta.json
+s = open(p).read()
+for i in range(1, 21):
+    pid = "C%02d" % i
+    items = []
+    for sname, m in sorted(seeds.items()):
+        if m.get("property") != pid or len(sname) < 4 or sname[3:] < "f":
+            continue
+        if m.get("strengthening"):
+            items.append(f">   * ({sname}) {re.sub(r'[|`]', '', re.sub(chr(10), ' ', m['strengthening']))}")
+    a, b = f"<!-- LATER:{pid}:BEGIN -->", f"<!-- LATER:{pid}:END -->"
+    block = a + "\n" + (">\n> **Added in seed rounds f and later** (each line: the seeded change that exposed the gap, and what the check generates / asserts since):\n" + "\n".join(items) + "\n" if items else "") + b
+    if a in s:
+        s = s[: s.index(a)] + block + s[s.index(b) + len(b):]
+    else:
+        # first time: put the block right after the property's first "As built" blockquote line
+        hdr = re.search(r"^### " + pid + r"\b.*$", s, flags=re.M)
+        if pid == "C18":
+            hdr = re.search(r"^> \*\*As built:\*\* `vt/props/c18.py`", s, flags=re.M)
+            j = s.index("\n", hdr.start())
+        elif pid == "C17":
+            hdr = re.search(r"^> \*\*As built:\*\* `vt/props/c17.py`", s, flags=re.M)
+            j = s.index("\n", hdr.start())
+        else:
+            k = s.index("> **As built:**", hdr.start())
+            j = s.index("\n", k)
+        s = s[: j + 1] + block + "\n" + s[j + 1:]
+open(p, "w").write(s)
+print("later-round blocks written")
